@@ -185,6 +185,33 @@ def sentinels(x, acc, seen):
         acc.append('EMBEDDED:WeakRef')
 
 
+def legacy_weak(data):
+    """The same record with every same-database weak reference `['w', (oid,)]` in the legacy format
+    `[oid]` (re-pickled through a pickler whose persistent_id hands the changed references back)."""
+    c14_classes.show_gone()
+    u = zodbpickle.pickle.Unpickler(io.BytesIO(data))
+    u.persistent_load = Ref
+    meta, state = u.load(), u.load()
+    changed = []
+
+    def pid(o):
+        if isinstance(o, Ref):
+            t = o.tok
+            if isinstance(t, list) and len(t) == 2 and t[0] == 'w' and len(t[1]) == 1:
+                changed.append(1)
+                return [t[1][0]]
+            return t
+        if isinstance(o, (Persistent, WeakRef)):
+            raise ValueError('embedded persistent object')
+        return None
+    f = io.BytesIO()
+    p = zodbpickle.pickle.Pickler(f, 3)
+    p.persistent_id = pid
+    p.dump(meta)
+    p.dump(state)
+    return f.getvalue() if changed else None
+
+
 def py2_patch(data):
     """Rewrite a protocol-3 record the way Python 2 wrote it: every SHORT_BINBYTES (the oids) becomes
     SHORT_BINSTRING, so the unpickler hands all-ASCII oids over as str.  None if an oid is not ASCII
@@ -807,6 +834,38 @@ class Session:
             dbs.append(ZODB.DB(new, databases=databases, database_name=DBNAMES[i]))
         return dbs
 
+    def export_check(self):
+        """Connection.exportFile walks the database with referencesf: the export holds exactly the
+        objects reachable from the root through strong same-database references"""
+        import tempfile
+        from ZODB.utils import u64
+        c = self.dbs[0].open(transaction_manager=self.ltm)
+        try:
+            with tempfile.TemporaryFile() as f:
+                c.exportFile(Z64, f)
+                f.seek(4)
+                got = []
+                while True:
+                    h = f.read(16)
+                    if h == b'\377' * 16 or len(h) < 16:
+                        break
+                    got.append(h[:8])
+                    f.seek(u64(h[8:16]), 1)
+        finally:
+            self.ltm.abort()
+            c.close()
+        want, todo = set(), [(0, Z64)]
+        while todo:
+            k = todo.pop()
+            if k in want or k[0] != 0:
+                continue
+            want.add(k)
+            todo += list(self.edges.get(k, ()))
+        self.count('export')
+        if sorted(got) != sorted(o for _, o in want):
+            self.violation('C14:export-set', 'exportFile(root) holds %s; reachable through strong same-database '
+                           'references are %s' % (sorted(o.hex() for o in got), sorted(o.hex() for _, o in want)))
+
     def final_phase(self):
         if not self.ncommits or not self.expect:
             return
@@ -830,12 +889,17 @@ class Session:
                     c14_classes.hide_gone()
             finally:
                 c14_classes.show_gone()
+        self.export_check()
         if self.case.get('legacy', True):
             patched = {}
             for k, data in allrecs.items():
-                p = py2_patch(data)
-                if p is not None:
-                    patched[k] = p
+                try:
+                    p = legacy_weak(data) if self.case.get('legacy_weak') else None
+                except Exception:
+                    p = None
+                p2 = py2_patch(p or data)
+                if p2 is not None or p is not None:
+                    patched[k] = p2 or p
             if patched:
                 self.count('load:legacy')
                 self.emit('clearstore', 'ok')
@@ -1011,6 +1075,12 @@ class Oracle:
                             s.edges.setdefault((snap.db, snap.post_oid[h]), set()).add(k)
                     else:
                         toks.append(t)
+                for t in (snap.args[h] or []):
+                    if t[0] == 's':           # a reference inside the constructor arguments
+                        th = int(t[1:])
+                        k = (s.connid.get(id(snap.post_jar[th]), (9, 99))[0], snap.post_oid[th])
+                        s.indeg[k] = s.indeg.get(k, 0) + 1
+                        s.edges.setdefault((snap.db, snap.post_oid[h]), set()).add(k)
                 wargs = None
                 if snap.args[h] is not None:
                     wargs = [('o%d:%s' % (s.connid.get(id(snap.post_jar[int(t[1:])]), (9, 99))[0],
@@ -1106,7 +1176,7 @@ def gen_case(rng, thorough=False):
     ndb = 2 if rng.random() < (0.45 if thorough else 0.35) else 1
     case = dict(ndb=ndb, xrefs=[1 if rng.random() < 0.93 else 0, 1],
                 oids=[gen_oids(rng, 12), gen_oids(rng, 8), []], ops=[],
-                legacy=rng.random() < 0.5, fresh_each=rng.random() < 0.5)
+                legacy=rng.random() < 0.5, legacy_weak=rng.random() < 0.5, fresh_each=rng.random() < 0.5)
     ops = case['ops']
     weak_p = rng.choice([0.0, 0.1, 0.1, 0.25])
     counter = [0]
@@ -1126,8 +1196,9 @@ def gen_case(rng, thorough=False):
         return names
 
     allnames = []
-    for txn in range(rng.choice([1, 1, 2, 2, 3])):
-        fresh = new_objs(rng.choice([1, 2, 3, 4, 5, 6]))
+    big = thorough and rng.random() < 0.15
+    for txn in range(rng.choice([1, 1, 2, 2, 3]) + (2 if big else 0)):
+        fresh = new_objs(rng.choice([1, 2, 3, 4, 5, 6]) + (rng.randrange(4, 12) if big else 0))
         allnames += fresh
         # constructor arguments that contain references
         for n in fresh:
@@ -1137,7 +1208,7 @@ def gen_case(rng, thorough=False):
             if kinds[n] in 'AH' and plain and rng.random() < 0.25:
                 ops.append(['args', n, [gen_value(rng, plain, 1, 0.0) for _ in range(rng.choice([1, 2]))]])
         # links
-        for _ in range(rng.choice([1, 2, 3, 4, 6, 8])):
+        for _ in range(rng.choice([1, 2, 3, 4, 6, 8]) + (rng.randrange(5, 20) if big else 0)):
             holder = rng.choice(allnames)
             pool = allnames
             if ndb == 2 and rng.random() < 0.7:
@@ -1221,6 +1292,38 @@ def nontrivial(s):
     return (sharing or cyc) and len(s.formats & set('TOWMNL')) >= 2
 
 
+def light(case, s, mo):
+    """what the verdict needs from one executed case (picklable)"""
+    res = dict(counts=dict(s.counts), formats=sorted(s.formats), nontrivial=nontrivial(s),
+               viol=list(s.viol[:3]), mismatch=None,
+               sample=dict(ops=case['ops'][:14], lines=[l for l, _ in s.lines][:10]))
+    if not s.viol:
+        for (line, real), m in zip(s.lines, mo):
+            if real is None:
+                continue
+            if line.startswith('commit') and m.startswith('ok stored='):
+                m = 'ok stored=' + ','.join(sorted(x for x in m[len('ok stored='):].split(',') if x))
+            if line.startswith('lwalk'):
+                m = canon_walk(m)
+            if m != real:
+                res['mismatch'] = ('model/impl differ at %r: impl %s | model %s' % (line[:80], real[:300], m[:300]),
+                                   dict(line=line, impl=real, model=m))
+                break
+    return res
+
+
+def work(cases):
+    """run a chunk of cases on the real code and on the model (one driver process per chunk)"""
+    sessions = [run_case(case) for case in cases]
+    alllines = [l for s in sessions for l, _ in s.lines]
+    model = run_driver('Refs', alllines) if alllines else []
+    out, pos = [], 0
+    for case, s in zip(cases, sessions):
+        out.append(light(case, s, model[pos: pos + len(s.lines)]))
+        pos += len(s.lines)
+    return out
+
+
 def main(argv=None):
     ck = Check('C14', argv)
     ck.extra['modules'] = ['Props.C14', 'Drivers.Refs']
@@ -1239,48 +1342,36 @@ def main(argv=None):
         ncases = 0
     for _ in range(ncases):
         cases.append(gen_case(ck.rng, ck.thorough))
-    sessions = []
-    for case in cases:
-        try:
-            sessions.append(run_case(case))
-        except InfraError:
-            raise
-    # model: one driver run
-    alllines = [l for s in sessions for l, _ in s.lines]
-    model = run_driver('Refs', alllines) if alllines else []
-    pos = 0
-    for case, s in zip(cases, sessions):
-        mo = model[pos: pos + len(s.lines)]
-        pos += len(s.lines)
-        for k, v in s.counts.items():
+    if ck.thorough and len(cases) > 2000:
+        import multiprocessing
+        chunks = [cases[i:i + 500] for i in range(0, len(cases), 500)]
+        with multiprocessing.Pool(min(16, os.cpu_count() or 4)) as pool:
+            results = [r for chunk in pool.map(work, chunks) for r in chunk]
+    else:
+        results = work(cases)
+    shrunk = set()
+    for case, res in zip(cases, results):
+        for k, v in res['counts'].items():
             ck.count(k, v)
-        for f in s.formats:
+        for f in res['formats']:
             ck.count('format:' + f)
-        nt = nontrivial(s)
-        ck.case(case, nt, sample=dict(ops=case['ops'][:14], lines=[l for l, _ in s.lines][:10]) if nt else None)
-        if s.viol:
-            sig, what = s.viol[0]
+        ck.case(case, res['nontrivial'], sample=res['sample'] if res['nontrivial'] else None)
+        if res['viol']:
+            sig, what = res['viol'][0]
+            if sig in shrunk or len(shrunk) >= 4:        # shrink each kind of failure once
+                ck.violation(sig, what, case)
+                continue
+            shrunk.add(sig)
 
             def fails(sub, sig=sig, case=case):
                 c2 = dict(case, ops=sub)
                 return any(v[0] == sig for v in run_case(c2).viol)
             small = ddmin(case['ops'], fails, max_tests=150)
             c2 = dict(case, ops=small)
-            s2 = run_case(c2)
-            w2 = [v for v in s2.viol if v[0] == sig]
+            w2 = [v for v in run_case(c2).viol if v[0] == sig]
             ck.violation(sig, w2[0][1] if w2 else what, c2 if w2 else case)
-            continue
-        for (line, real), m in zip(s.lines, mo):
-            if real is None:
-                continue
-            if line.startswith('commit') and m.startswith('ok stored='):
-                m = 'ok stored=' + ','.join(sorted(x for x in m[len('ok stored='):].split(',') if x))
-            if line.startswith('lwalk'):
-                m = canon_walk(m)
-            if m != real:
-                ck.mismatch('model/impl differ at %r: impl %s | model %s' % (line[:80], real[:300], m[:300]),
-                            dict(case, differ=dict(line=line, impl=real, model=m)))
-                break
+        elif res['mismatch']:
+            ck.mismatch(res['mismatch'][0], dict(case, differ=res['mismatch'][1]))
     ck.finish(rule='seeded random programs building graphs of persistent objects (PersistentMapping, '
                    'PersistentList, plain class, class with __getnewargs__, classes later unimportable) with '
                    'references nested in lists/tuples/dicts, weak references, a second database, explicit add, '
